@@ -342,6 +342,49 @@ def record(name, family, factory):
         if hit:
             leaks.add("setter:" + pname)
             ev["detail"].append("after copy.%s = original.%s a write into the copy's %s is visible at the original's %s" % (pname, pname, hit[0], hit[1]))
+    # the copy is handed the original's own PARAMETER VECTOR (as_vector() may be a view of the original's matrix): the copy, and the
+    # object from_vector makes of it, keep what they are given - a later write into them stays with them
+    if hasattr(o, "as_vector") and hasattr(o, "from_vector_inplace") and name.split("3D")[0] in (
+            "Homogeneous", "Affine", "Similarity", "Translation", "UniformScale", "NonUniformScale", "Rotation",
+            "AlignmentAffine", "AlignmentSimilarity", "AlignmentTranslation", "AlignmentUniformScale", "AlignmentRotation"):
+        for vname in ("from_vector_inplace", "from_vector"):
+            o2 = factory()
+            c2 = o2.copy()
+            try:
+                v_ = o2.as_vector()
+                tgt_ = c2.from_vector(v_) if vname == "from_vector" else (c2.from_vector_inplace(v_), c2)[1]
+            except Exception:
+                continue
+            ref = state(o2)
+            hit = None
+            for path, buf in buffers(tgt_):
+                if buf.size == 0 or not buf.flags.writeable or (path.split(".") + ["", ""])[1].lstrip("_") in ("source", "target"):
+                    continue
+                undo = _poke(buf)
+                if undo is None:
+                    continue
+                d = same(ref, state(o2))
+                undo()
+                if d:
+                    hit = (path, d)
+                    break
+            if not hit:
+                # ... and the other way round (the handed-over view may be read-only on the copy's side): a write into the original
+                ref_t = state(tgt_)
+                for path, buf in buffers(o2):
+                    if buf.size == 0 or not buf.flags.writeable or (path.split(".") + ["", ""])[1].lstrip("_") in ("source", "target"):
+                        continue
+                    undo = _poke(buf)
+                    if undo is None:
+                        continue
+                    d = same(ref_t, state(tgt_))
+                    undo()
+                    if d:
+                        hit = ("(original) " + path, d)
+                        break
+            if hit:
+                leaks.add("vector:" + vname)
+                ev["detail"].append("after copy.%s(original.as_vector()) a write into the result's %s is visible at the original's %s" % (vname, hit[0], hit[1]))
     # memoised answers must not travel with a copy (reported as leaks of kind "memo:")
     try:
         st, names = stale_observers(name, factory)
